@@ -22,9 +22,15 @@ use crate::r#static::{directory_handler, file_handler, redirect_handler};
 
 use std::error::Error;
 use std::io::{Read, Write};
+#[cfg(not(humphrey_verif))]
 use std::net::TcpStream;
+#[cfg(humphrey_verif)]
+use humphrey::verif::net::TcpStream;
 use std::sync::mpsc::channel;
+#[cfg(not(humphrey_verif))]
 use std::sync::{Arc, RwLock};
+#[cfg(humphrey_verif)]
+use humphrey::verif::sync::{Arc, RwLock};
 
 /// Represents the application state.
 /// Includes the target directory, cache state, and the logger.
